@@ -789,7 +789,11 @@ def memo_tables(ctx, fn, ps):
             kparams = {s_[1] for s_ in T.subterms(Kw) if s_[0] == 'var'}
             if module_level:
                 kparams = kparams - {'self'} | ({'self'} if any(k_ == V('self') for k_ in (Kw[1] if Kw[0] == 'tuple' else (Kw,))) else set())
-            katoms = _access_atoms(Kw, params)
+            kparams = {s_[1] for s_ in T.subterms(T.replace(Kw, lambda z: ('str', '<class>') if (z[0] == 'call' and z[1] == ('ext', 'TYPE') and len(z[2]) == 1) else None)) if s_[0] == 'var'} \
+                if not module_level else kparams
+            # (type(x) / x.__class__ in a key records the class of x, nothing of its content)
+            Kw_atoms = T.replace(Kw, lambda z: ('str', '<class>') if (z[0] == 'call' and z[1] == ('ext', 'TYPE') and len(z[2]) == 1) or (z[0] == 'attr' and z[2] == '__class__') else None)
+            katoms = _access_atoms(Kw_atoms, params)
             wv_ = unhold(w.value) if w.value is not None else w.value
             deps = {s_[1] for s_ in T.subterms(wv_) if s_[0] == 'var' and s_[1] in params}
             for c, v_, _ in p.conds:
